@@ -698,6 +698,26 @@ func (p *sqlParser) primary() (*SQLExpr, error) {
 		case "false":
 			return &SQLExpr{Op: "num", Name: "0"}, nil
 		}
+		if strings.EqualFold(t.text, "cast") && p.isOp("(") {
+			// CAST(expr AS type): the value is unchanged in the engine's semantics (storage class only); the target type
+			// is kept in Name so that contracts can ask for it
+			p.next()
+			x, err := p.expr()
+			if err != nil {
+				return nil, err
+			}
+			if err := p.expectKw("AS"); err != nil {
+				return nil, err
+			}
+			ty, err := p.ident()
+			if err != nil {
+				return nil, err
+			}
+			if err := p.expectOp(")"); err != nil {
+				return nil, err
+			}
+			return &SQLExpr{Op: "cast", Name: strings.ToLower(ty), Args: []*SQLExpr{x}}, nil
+		}
 		if p.acceptOp("(") {
 			call := &SQLExpr{Op: "call", Name: strings.ToLower(t.text)}
 			if !p.acceptOp(")") {
@@ -958,6 +978,10 @@ func sqlExprText(x *SQLExpr) string {
 			as = append(as, sqlExprText(a))
 		}
 		return x.Name + "(" + strings.Join(as, ",") + ")"
+	case "cast":
+		if len(x.Args) == 1 {
+			return "cast(" + sqlExprText(x.Args[0]) + " as " + x.Name + ")"
+		}
 	case "not", "isnull", "notnull":
 		if len(x.Args) == 1 {
 			return x.Op + "(" + sqlExprText(x.Args[0]) + ")"
